@@ -90,6 +90,8 @@ type c13Target struct {
 	Open   func() (c13Handle, error)
 	Region func(c int64) string // structural region a cut falls into (evidence only)
 	Bounds []int64              // structure boundaries (offsets at which a structure starts/ends)
+	// KeyBounds: boundaries of the structures a lookup of key k touches (its table entry, its entry)
+	KeyBounds func(k int) []int64
 	// limits (set by the part)
 	ExhaustBelow int64 // files up to this size are cut at every offset
 	NRandom      int
@@ -172,7 +174,7 @@ func c13Guard(fn func()) (panicked string) {
 }
 
 // c13Cuts builds the cut list of a target (descending) and says whether it is exhaustive.
-func c13Cuts(t *c13Target, rng *rand.Rand) (cuts []int64, exhaustive bool) {
+func c13Cuts(t *c13Target, rng *rand.Rand, keyIdx []int) (cuts []int64, exhaustive bool) {
 	if t.Size <= 0 {
 		return nil, false
 	}
@@ -200,6 +202,11 @@ func c13Cuts(t *c13Target, rng *rand.Rand) (cuts []int64, exhaustive bool) {
 		add(t.Size - 1 - d)
 	}
 	bounds := append([]int64(nil), t.Bounds...)
+	if t.KeyBounds != nil {
+		for _, k := range keyIdx {
+			bounds = append(bounds, t.KeyBounds(k)...)
+		}
+	}
 	if t.MaxCuts > 0 && len(bounds)*5 > t.MaxCuts {
 		// more boundaries than the budget: seed-chosen subset, first and last kept
 		sort.Slice(bounds, func(i, j int) bool { return bounds[i] < bounds[j] })
@@ -297,8 +304,8 @@ func c13Sweep(rec *c13Rec, t *c13Target) {
 		}
 		return
 	}
-	cuts, exhaustive := c13Cuts(t, rng)
 	keyIdx := c13KeySample(len(t.Keys), t.MaxKeys, rng)
+	cuts, exhaustive := c13Cuts(t, rng, keyIdx)
 	if c13ReplayCase != nil {
 		cuts, exhaustive = []int64{c13ReplayCase.Cut}, false
 		if c13ReplayCase.Key >= 0 && c13ReplayCase.Key < len(t.Keys) {
